@@ -24,7 +24,7 @@ the pinned suite keeps all 3028 stable tests) and is kept under `seeded/<id>/` (
 round 1, `-c/-d` round 2, `-e/-f` round 3). Each is caught by at least one **quick** check on seed 1; %d of the %d were
 missed at first and led to stronger generators or oracles (noted per row: "after ..."). A few are caught by the check of a
 neighbouring property rather than by the one the change was written against (C03-d by C04: the breakage is
-illegal TEAL; C07-f by C10: frame limits) - the row says so. None is applied to /repo.
+illegal TEAL) - the row says so. None is applied to /repo.
 
 | id | change | detection |
 |---|---|---|
